@@ -1,7 +1,7 @@
 (* C16 — Thermostat control changes only what was asked *)
 Require Import AS.Base.Prelude AS.Base.Hex AS.Base.Dec AS.Base.Template AS.Base.Exchange AS.Gen.Extracted AS.Model.DeviceTools AS.Model.Messages AS.Model.Remotes AS.Model.Api AS.Proofs.ApiProofs AS.Proofs.LengthProofs
   AS.Base.Utf8 AS.Spec.Sign AS.Spec.Frame AS.Spec.FrameLayout AS.Spec.Encoders AS.Spec.FrameSpec AS.Spec.IrChoice AS.Spec.Remote
-  AS.Proofs.SpecOps AS.Proofs.RemoteSpec AS.Proofs.BreezeExact.
+  AS.Proofs.SpecOps AS.Proofs.RemoteSpec AS.Proofs.BreezeExact AS.Proofs.BreezeReplies.
 
 (* nothing actionable: RuntimeError after the login frame only, whatever the device answers *)
 Local Open Scope N_scope.
@@ -128,3 +128,15 @@ Proof.
 Qed.
 Print Assumptions C16_swing_only_exact.
 Local Close Scope N_scope.
+
+(* it never reports success on an empty reply.  For every configuration, remote, request, flag and reply script (no premise at all): if
+   the call returns a non-empty response, then every reply it read - one per frame written, in order - was non-empty, and the response
+   is the reply to the last frame.  (Contrapositive: an empty reply at any step gives an exception or an empty, i.e. unsuccessful,
+   response.) *)
+Theorem C16_success_means_every_reply lg c now r state mode target fan swing update script fs resp :
+  Exchange.run (control_breeze_device lg c now r state mode target fan swing update) script = (fs, Ok resp) ->
+  resp <> [] ->
+  (length fs <= length script)%nat /\ Forall (fun x => x <> []) (firstn (length fs) script) /\
+  nth_error script (length fs - 1) = Some resp.
+Proof. exact (breeze_success_means_every_reply lg c now r state mode target fan swing update script fs resp). Qed.
+Print Assumptions C16_success_means_every_reply.
